@@ -84,9 +84,27 @@ PickHTTPS == /\ st = "pick"
                     /\ Finish([proto |-> "https", host |-> h, strict |-> s, cli |-> c, via |-> v,
                                port |-> pt, path |-> p])
 
+\* A server answers a whole history of requests, interleaved with
+\* reconfigurations.  Reconfigure stands for Server.Prepare applied with the
+\* configuration already in force (any POST /control/dns_config does that): it
+\* changes nothing the outcome depends on.  What it does change is outside the
+\* statement's vocabulary: the proxy is a new instance, and dnsproxy's request
+\* identifiers -- the keys under which the pre-request hook hands the ClientID
+\* to the processing stage -- are "unique across requests processed by a
+\* single Proxy instance" only, so they start again.  HistoryIndependent is
+\* the statement read over histories: the outcome of a request is a function
+\* of that request and of the configuration in force, whatever was served
+\* before and however often the server was reconfigured in between.  The
+\* conformance harness concretises Reconfigure and restarts its identifiers
+\* exactly there.
+Again       == st = "done" /\ st' = "pick" /\ in' = NoIn /\ out' = {}
+Reconfigure == st = "pick" /\ UNCHANGED vars
+
 Init == st = "pick" /\ in = NoIn /\ out = {}
-Next == PickPlain \/ PickConn \/ PickHTTPS
+Next == PickPlain \/ PickConn \/ PickHTTPS \/ Again \/ Reconfigure
 Spec == Init /\ [][Next]_vars
+
+HistoryIndependent == [][st' = "done" => out' = Extract(in')]_vars
 
 \* --------------------------------------------- properties of the statement
 Done == st = "done"
